@@ -10,11 +10,13 @@
      22        assert!(kwalk.is_var()) of DisequalityConstraint::walk_star
    so for a well-formed program (operands of the documented kinds, domains before labeling) there is
    no panic: the sites of exclude_from_domain, update_var_domain, the division in timesz, and a
-   second visit of a project goal are unreachable, whatever the program.  PARTIAL: site 22 is not
-   excluded by proof (it needs the invariant that the keys of stored disequalities are unbound,
-   which is observed on every run by the check); arithmetic overflow is outside the model (Z). *)
+   second visit of a project goal are unreachable, whatever the program.  For a query (the goal
+   proto_vulcan_query! builds from ANY body) site 22 is excluded as well: the invariant "constraint
+   identities are unique and the keys of stored disequalities are unbound" holds in every state the
+   search still uses, because every extension of the substitution is followed by a complete re-run of
+   the store (Proofs/KeyProofs.v, Proofs/KeyStream.v).  Arithmetic overflow is outside the model (Z). *)
 From Coq Require Import List ZArith Bool Arith.
-From PV Require Import Model.Term Model.Subst Model.Unify Model.FD Model.State Model.Engine Proofs.PanicProofs Proofs.CLPZProofs.
+From PV Require Import Model.Term Model.Subst Model.Unify Model.FD Model.State Model.Engine Proofs.PanicProofs Proofs.CLPZProofs Proofs.ElabAll Proofs.KeyProofs Proofs.KeyStream.
 Import ListNotations.
 
 (* state layer: unification, disunification, posting any constraint or domain *)
@@ -47,6 +49,34 @@ Proof.
   repeat split; intros ->; repeat (destruct H as [H|H]); discriminate.
 Qed.
 
+(* the invariant behind the disequality-key assertion, per state operation ... *)
+Theorem C23_inv_state_ops : forall st u v c x d, Inv st ->
+  sresInv (state_unify st u v) /\ sresInv (state_disunify st u v) /\ sresInv (post_constraint c st) /\ sresInv (post_domain x d st).
+Proof. intros. repeat split; [apply state_unify_inv|apply state_disunify_inv|apply post_constraint_inv|apply post_domain_inv]; assumption. Qed.
+(* ... re-established by run_constraints from any state with unique identities, whatever its keys *)
+Theorem C23_rerun_restores : forall f st, UID st -> sresG none st (run_constraints f st).
+Proof. exact run_constraints_good. Qed.
+
+(* a query never reaches the assertion, and so panics only on the documented ill-formedness *)
+Definition documented (site : nat) : Prop := site = 1 \/ site = 2 \/ site = 3 \/ site = 10 \/ site = 20.
+Theorem C23_query_sites : forall defs nvars names body n k site,
+  let '(g, st) := query_goal defs nvars names body in
+  next defs k 0 (start defs n g st) = NErr false site -> documented site.
+Proof.
+  intros defs nvars names body n k site.
+  pose proof (query_never_site22 defs nvars names body n k site) as H22.
+  assert (Hok : cg_ok (fst (query_goal defs nvars names body))).
+  { unfold query_goal. pose proof (elab_ok defs efuel BFS (combine names (map (fun i => TVar i false) (seq 0 nvars))) (GConj body) (S nvars)) as He.
+    destruct (elab defs efuel BFS _ (GConj body) (S nvars)) as [cs nv]. cbn [fst] in *. cbn [cg_ok].
+    apply from_array_ok. constructor; [exact I|]. constructor; [exact He|]. constructor; [|constructor].
+    unfold reify_goal. apply from_array_ok. constructor; [|constructor; [exact I|constructor]].
+    apply from_array_ok. constructor; [|constructor; [exact I|constructor]].
+    apply from_array_ok. constructor; [exact I|]. constructor; [exact I|constructor]. }
+  destruct (query_goal defs nvars names body) as [g st]. cbn [fst] in Hok. intros H.
+  specialize (H22 H). pose proof (next_ok defs k 0 _ site (start_ok defs n g st Hok) H) as Ha.
+  unfold documented. destruct Ha as [[->|[->| ->]]|[->|[->| ->]]]; auto. congruence.
+Qed.
+
 Check C23_next : forall defs k used s site, okS s -> next defs k used s = NErr false site -> allowed site.
 Print Assumptions C23_state_ops.
 Print Assumptions C23_goal_construction.
@@ -54,3 +84,6 @@ Print Assumptions C23_step.
 Print Assumptions C23_next.
 Print Assumptions C23_query.
 Print Assumptions C23_unreachable.
+Print Assumptions C23_inv_state_ops.
+Print Assumptions C23_rerun_restores.
+Print Assumptions C23_query_sites.
